@@ -169,10 +169,11 @@ func (e *Executor) ToEditorOutput(tasks []*ast.Task, noStatus bool) (*editors.Ta
 			if tasks[i].Method != "" {
 				method = tasks[i].Method
 			}
+			// Listing is a query: the fingerprint state must not be written
 			upToDate, err := fingerprint.IsTaskUpToDate(context.Background(), tasks[i],
 				fingerprint.WithMethod(method),
 				fingerprint.WithTempDir(e.TempDir.Fingerprint),
-				fingerprint.WithDry(e.Dry),
+				fingerprint.WithDry(true),
 				fingerprint.WithLogger(e.Logger),
 			)
 			if err != nil {
